@@ -1176,8 +1176,8 @@ fn main() {
             "tie order depends on the product's hash-map scan order (random per process); predicates accept every tie order",
         ],
         parts: vec![
-            PropPart::new("ops", 120_000, 2_000_000, gen::ops_strategy, check).shrink_iters(12000).boxed(),
-            PropPart::new("bulk", 10_000, 100_000, gen::bulk_strategy, check).shrink_iters(2500).boxed(),
+            PropPart::new("ops", 100_000, 2_000_000, gen::ops_strategy, check).shrink_iters(12000).boxed(),
+            PropPart::new("bulk", 8_000, 100_000, gen::bulk_strategy, check).shrink_iters(2500).boxed(),
         ],
         children: vec![],
     });
